@@ -207,8 +207,8 @@ interpolate_cubic(const LieGroupBase<_Derived>& ma,
     const Scalar h10 =  t3 - Scalar(2)*t2 + t;
     const Scalar h11 =  t3 - t2;
 
-    const auto l = ma.rplus(tab*h00).rplus(ta*h10);
-    const auto r = mb.rplus(tab*(-h01)).rplus(tb*h11);
+    const auto l = ma.rplus(tab*h01).rplus(ta*h10);
+    const auto r = mb.rplus(tab*(-h00)).rplus(tb*h11);
     const auto B = l.rminus(r);
 
     mc = r.rplus(B);
